@@ -48,6 +48,18 @@ Uneq4 == [id |-> "uneq4", T |-> 5,
           con |-> <<Con(<<1, 1, 0, 0>>, 2203700), Con(<<1, 1, 1, 1>>, 4550000), Con(<<0, 0, 1, -1>>, 60 * A),
                     Con(<<1, 1, -1, 0>>, 3033300)>>]
 
+\* finite-rate stations whose lowest level is fractional (7.5 A): the minimum pilot of uninterrupted
+\* charging is stored truncated (TruncA in SortedAlgo.tla); pod limit 22.4 A: 15 + 7.5 does not fit
+L75 == <<0, 750000, 1500000, 2250000, 3000000>>
+Frac3 == [id |-> "frac3", T |-> 5,
+          st |-> <<Fin(L75, 208, 0), Fin(L75, 208, 0), Cont(32 * A, 208, 0)>>,
+          con |-> <<Con(<<1, 1, 0>>, 2240000), Con(<<1, 1, 1>>, 5003700)>>]
+\* coefficients larger than 1 (a station counted twice / a transformer ratio): the weighted line binds
+\* while the plain sum of the pilots is still below every limit
+Weighted3 == [id |-> "weighted3", T |-> 5,
+              st |-> <<Cont(32 * A, 208, 0), Fin(L8, 208, 0), Cont(32 * A, 208, 0)>>,
+              con |-> <<Con(<<2, 2, 1>>, 8003700), Con(<<1, 1, 1>>, 70 * A)>>]
+
 P(ar, de, ed, rm, dl, es) == [on |-> TRUE, arr |-> ar, dep |-> de, edep |-> ed, rem |-> rm, dlv |-> dl, est |-> es]
 \* now = 10.  rem / dlv in 1e-5 amp-periods, est in 1e-5 A
 PA == P(2, 40, 30, 10037000, 0, 1230000)        \* long stay, large demand, estimator bound 12.3 A
@@ -67,14 +79,14 @@ Prof08Q == {PA, PB, PE, PL}
 Prof08T == {PA, PB, PC, PE, PG, PL}
 Prof08N == {PA, PB, PE, PL}                      \* on the four-station infrastructures
 
-Infras07Q == {Single3, Delta3}
-Infras07T1 == {Single3, Single3x}
-Infras07T2 == {Delta3, Uneq3}
+Infras07Q == {Single3, Delta3, Frac3}
+Infras07T1 == {Single3, Single3x, Frac3}
+Infras07T2 == {Delta3, Uneq3, Weighted3}
 Infras07T == Infras07T1 \cup Infras07T2
 Infras07N == {Nested4}
-Infras08Q == {Delta3f, Uneq3}
-Infras08T1 == {Single3x, Uneq3}
-Infras08T2 == {Delta3, Delta3f}
+Infras08Q == {Delta3f, Uneq3, Weighted3}
+Infras08T1 == {Single3x, Uneq3, Weighted3}
+Infras08T2 == {Delta3, Delta3f, Frac3}
 Infras08T == Infras08T1 \cup Infras08T2
 Infras08N1 == {Nested4}
 Infras08N2 == {Uneq4}
@@ -121,6 +133,11 @@ InfrasRR01 == {[id |-> "rr01", T |-> 5,
                 con |-> <<Con(<<1, -1, 1>>, 3303700)>>]}
 ProfRR01 == {PA, PB, PE}
 OptsRR01 == OptsRR({"fcfs", "llf"}, {FALSE}, {10000})
+
+\* sessions with equal remaining time (PA and PF both leave at 40) under uninterrupted charging
+InfrasShare == {Single3, Delta3f}
+ProfShare == {PA, PF, PB}
+OptsShare == {O("greedy", so, TRUE, FALSE, 0) : so \in {"fcfs", "lcfs", "llf"}} \cup OptsRR({"fcfs"}, {FALSE}, {250000})
 
 ASSUME \A n \in Infras : \A k \in 1..Len(n.con) : n.con[k].lim <= 100 * U /\ Len(n.con[k].coef) = Len(n.st)
 =============================================================================
